@@ -9,6 +9,7 @@ mod d_misc;
 mod http;
 mod d_serve;
 mod d_conn;
+mod d_cors;
 
 fn main() {
     let args: Vec<String> = std::env::args().collect();
@@ -24,6 +25,7 @@ fn main() {
         "mime" => d_misc::mime(&opts),
         "serve" => d_serve::run(&opts),
         "conn" => d_conn::run(&opts),
+        "cors" => d_cors::run(&opts),
         "conn-child" => d_conn::child(&opts),
         "random-worlds" => d_serve::random_worlds(&opts),
         other => {
